@@ -3487,9 +3487,31 @@ func ruleSmallGuards(which string) func(c *Ctx) {
 				return false, false
 			}
 			n := 0
-			for _, g := range p.withNewHelpers(fn) {
+			isUnmarshal := func(call ssa.CallInstruction) bool {
+				m := calleeFunc(call.Common())
+				return m != nil && m.Pkg() != nil && m.Pkg().Path() == "encoding/json" && m.Name() == "Unmarshal"
+			}
+			// the decode step of DecodeEvent itself: json.Unmarshal, or a helper (new since the reference tree) that does it
+			decodes := func(call ssa.CallInstruction) bool {
+				if isUnmarshal(call) {
+					return true
+				}
+				sf := call.Common().StaticCallee()
+				if sf == nil || !p.isRepoFn(sf) || p.onReferenceTree(sf) {
+					return false
+				}
+				for _, h := range p.withNewHelpers(sf) {
+					for _, c2 := range callsIn(h) {
+						if isUnmarshal(c2) {
+							return true
+						}
+					}
+				}
+				return false
+			}
+			for _, g := range WithClosures(fn) {
 				for _, call := range callsIn(g) {
-					if m := calleeFunc(call.Common()); m != nil && m.Pkg() != nil && m.Pkg().Path() == "encoding/json" && m.Name() == "Unmarshal" {
+					if decodes(call) {
 						n++
 						c.inst(1)
 						c.check(p.guardedBy(call, nonEmpty) != nil, fnName(g), "an event without payload is an event without data, not a malformed one", p.InstrPos(call), "decode behind len(payload) != 0",
@@ -3529,7 +3551,7 @@ func ruleSmallGuards(which string) func(c *Ctx) {
 					if cc := call.Common(); cc.IsInvoke() && cc.Method.Name() == "TokenReset" {
 						n++
 						c.inst(1)
-						c.check(p.guardedBy(call, hasSubject) != nil, fnName(g), "a token reset without subject reaches no connection", p.InstrPos(call), "behind Subject != \"\"",
+						c.check(p.guardedUp(call, hasSubject, 0), fnName(g), "a token reset without subject reaches no connection", p.InstrPos(call), "behind Subject != \"\"",
 							"connections are told to re-authenticate against the empty subject: an auth request carrying cid and token goes out on subject \"\"")
 					}
 				}
@@ -3906,6 +3928,14 @@ func ruleDescendingComplete(c *Ctx) {
 			x, op, k, ok := cmpConst(i.Cond)
 			if !ok {
 				continue
+			}
+			switch op {
+			case token.LSS, token.LEQ, token.GTR, token.GEQ:
+			default:
+				continue // an equality test inside the loop is no loop condition
+			}
+			if body[hb.Succs[0]] == body[hb.Succs[1]] {
+				continue // not the exit test of the loop
 			}
 			phi, ok := stripConv(x).(*ssa.Phi)
 			if !ok || phi.Block() != hb {
